@@ -294,10 +294,13 @@ func (px *PathCtx) onSync(fr *frame, kind string) {
 // blocked: the current (only) thread cannot go on until cond holds; give the
 // harness scheduler a chance, then end the path.
 func (px *PathCtx) blocked(fr *frame, what string, cond func() bool) {
-	if h, ok := px.userData["onblock"]; ok && !px.inSched {
-		px.inSched = true
+	if h, ok := px.userData["onblock"]; ok && !px.inBlock {
+		// the block hook may also run inside a sync hook (a second client injected at a synchronisation point
+		// of the first one can itself have to wait for the flusher)
+		prev := px.inSched
+		px.inBlock, px.inSched = true, true
 		call(fr.i, fr, 0, h, []value{what})
-		px.inSched = false
+		px.inBlock, px.inSched = false, prev
 		if cond() {
 			return
 		}
